@@ -104,6 +104,7 @@ CFGS = ["mdpax.solvers.value_iteration.ValueIterationConfig", "mdpax.solvers.pol
         "mdpax.problems.perishable_inventory.hendrix_two_product.HendrixTwoProductPerishableConfig"]
 C20M = ["contracts.logging_configs", "contracts.validators"]
 CTOR = [U(["contracts.constructors"], f"{t}.__init__", timeout_ms=15000) for t in (VI, RV, PV, SA, PI)]
+CK = "mdpax.utils.checkpointing.CheckpointMixin"
 PROPS["C20"] = dict(level="proof",
     units=[U(C20M, "mdpax.utils.logging.get_convergence_format"), U(C20M, "mdpax.core.solver.Solver._setup_config"),
            U(C20M, f"{VI}._setup_convergence_testing", only=["full."], tag="full")]
@@ -111,7 +112,10 @@ PROPS["C20"] = dict(level="proof",
           + [U(C20M, "mdpax.problems.perishable_inventory.mirjalili_platelet.MirjaliliPlateletPerishableConfig.__post_init__"), U(C20M, "mdpax.utils.logging.verbosity_to_loguru_level")]
           + CTOR + [U(C20M, "mdpax.core.solver.Solver.set_verbosity"), U(["contracts.checkpointing"], f"{VI}._setup_additional_components"),
                     # solver-specific configuration plumbing on both construction routes
-                    U(SAM + ["contracts.vi_solve"], f"{SA}._setup_config"), U(PVM, f"{PV}._setup_config")],
+                    U(SAM + ["contracts.vi_solve"], f"{SA}._setup_config"), U(PVM, f"{PV}._setup_config"),
+                    # third route: what restore() later reads is the configuration THIS solver wrote (config.yaml saved on every set-up with a reconstructible problem)
+                    U(["contracts.checkpointing"], f"{CK}._setup_checkpointing"), U(["contracts.checkpointing"], f"{CK}.restore", timeout_ms=20000),
+                    U(["contracts.checkpointing"], f"{CK}.has_full_config")],
     replayers=[("*", "replay_c20.py")],
     bounded=[dict(name="c20_runtime", script="harness_c20.py", wall_s=400)],
     assumptions=[ARITH, ENGINE, "the float64 clause and the equivalence of the three construction routes involve JAX's global x64 flag, Hydra instantiate and the OmegaConf YAML round trip: bounded run-time checks only (fresh processes, 5 solvers x 2 problems), not proved"])
@@ -132,7 +136,6 @@ PROPS["C08"] = dict(
     assumptions=SOLVER_ASSUME + ["PeriodicValueIteration.solve requires value_history is not None (a converged solve with the default clear_value_history_on_convergence=True clears it; a further solve() then raises TypeError) - stated precondition, see DESIGN C08"],
 )
 
-CK = "mdpax.utils.checkpointing.CheckpointMixin"
 CAD = [U(V1 + ["contracts.cadence"], f"{VI}.solve", prepare="contracts.cadence:install", tag="cadence", only=["span."], timeout_ms=20000),
        U(RVM + ["contracts.cadence"], f"{RV}.solve", prepare="contracts.cadence:install", tag="cadence", timeout_ms=20000),
        U(PVM + ["contracts.cadence"], f"{PV}.solve", prepare="contracts.cadence:install", tag="cadence", pop=[f"{PV}._iteration_step"], timeout_ms=20000),
